@@ -167,6 +167,29 @@ func runC06(c *Ctx) {
 				c.Check("signed_verifies_after_wire", perr == nil && len(rem) == 0 && p2.Verify() == nil && v, "NewEncryptedLeaseSet", [][]byte{b}, "", fmt.Sprintf("parse err=%v", perr))
 			}
 		}
+		// ---- OfflineSignature for EVERY transient signing type the constructor accepts (the
+		// transient key is opaque to the offline signature: any bytes of the type's length)
+		for _, tt := range []int{0, 1, 2, 3, 4, 5, 6, 7, 8, 11} {
+			dst := uint16([]int{7, 11}[r.Intn(2)])
+			tkey := r.Bytes(specSigPubLen[tt])
+			o, oerr := offline_signature.CreateOfflineSignature(1+uint32(r.U64()>>33), uint16(tt), tkey, ed25519.PrivateKey(k.priv), dst)
+			if oerr != nil {
+				continue // a transient type the constructor does not support
+			}
+			ok, verr := o.VerifySignature(k.pub)
+			ob := o.Bytes()
+			c.Check("signed_verifies_before_wire", ok && verr == nil, "CreateOfflineSignature(transient type)", [][]byte{ob, u64b(uint64(tt))}, "", fmt.Sprintf("transient type %d: VerifySignature=%v,%v on constructor output", tt, ok, verr))
+			sc := signedCase{E_VerifyOfflineSignature, "OfflineSignature.VerifySignature", nil, ob, [][]byte{u64b(uint64(dst)), cp(k.pub)}}
+			var v bool
+			c.Case(sc.entry, append([][]byte{ob}, sc.extra...), func() Obs { v, _, _ = c05Impl(sc); return OK(bool1(v)) })
+			o2, rem, perr := offline_signature.ReadOfflineSignature(ob, dst)
+			okw := perr == nil && len(rem) == 0
+			if okw {
+				ok2, e2 := o2.VerifySignature(k.pub)
+				okw = ok2 && e2 == nil
+			}
+			c.Check("signed_verifies_after_wire", okw && v, "CreateOfflineSignature(transient type)", [][]byte{ob, u64b(uint64(tt))}, "", fmt.Sprintf("transient type %d: did not verify after the wire (parse err=%v)", tt, perr))
+		}
 		// ---- LeaseSet2 (recorded finding D7: the constructor stores a placeholder signature)
 		if i < c.N(8, 100) {
 			id := genSignedIdent(r, k, 7, false)
